@@ -1,5 +1,6 @@
 """C04 — knot insertion never changes the curve and yields exactly the requested knots."""
 from common import *  # noqa: F401,F403
+import units
 
 RULE = ("random valid curves (polynomial and rational, scalar and vector points, degree 0..4, mixed multiplicities, 0 as interior value "
         "forced in a share of cases) with node lists: new nodes, nodes equal to existing knots, repeated nodes, the value 0, several at once, "
@@ -25,6 +26,10 @@ def run_case(ctx, case):
     nearpair = any(0 < abs(x - y) < tol for x in nodes for y in allk)
     rec.case(case, nontrivial=(p >= 1 and len(nodes) > 0))
     rec.count("request", "valid" if valid else "invalid")
+    if not nearpair:
+        for x in sorted(set(nodes)):
+            if U[0] <= x <= U[-1]:
+                units.tie_insonce(rec, drv, case, U, x)      # the single-insertion matrix the Boehm theorems are stated about
     rec.count("weights", "rational" if W is not None else "polynomial")
     if any(x not in U and any(0 < abs(x - k) < F(1, 10**9) for k in knots) for x in nodes):
         rec.count("nodes", "within-1e-9-of-a-knot")
